@@ -295,6 +295,45 @@ def r4_r5_consumers_enqueuers(ctx, f, rep):
         rep.check(ok_ is True and db is True, 'C15-R5', 'Foca::handle_apply_summary', 'enqueue only for a successful application '
                   'with broadcasting enabled', site=e['span'], construct='enqueue-guard')
     rep.floor('C15-R5', len(sites.get('Foca::handle_apply_summary', [])), 1, 'enqueue in handle_apply_summary')
+    # the key under which an update is filed is the address of the very member the bytes describe
+    nk = 0
+    for fn in ('Foca::handle_apply_summary', 'Foca::change_identity', 'Foca::leave_cluster'):
+        b2 = f.fn(fn)
+        done = False
+        for p in ctx.paths(f, b2, 'ctor'):
+            if done:
+                break
+            calls = {c['id']: c for c in p.calls()}
+            for e in p.calls():
+                if e['res'] != 'broadcast::Broadcasts::add_or_replace' or e['args'][0] != ('ref', q.self_field('updates'), True):
+                    continue
+                done = True
+                nk += 1
+                key, data = e['args'][1], e['args'][2]
+                good = key[0] == 'agg' and key[5] and key[5][0][0] == 'call' and \
+                    calls[key[5][0][1]]['decl'] == 'identity::Identity::addr'
+                why = 'key is not Addr(<identity>.addr())'
+                if good:
+                    keyed = calls[key[5][0][1]]['derefs'][0]      # the identity whose address is the key
+                    # the serialised member: data = (serialize_member(M)?).Continue.0
+                    ser = [c for c in p.calls() if c['res'] == 'Foca::serialize_member']
+                    good = len(ser) >= 1 and q.mentions(data, lambda x: x[0] == 'call' and x[1] in calls and
+                                                         calls[x[1]]['decl'].endswith('Try::branch'))
+                    why = 'data is not the result of serialize_member'
+                    if good:
+                        m = ser[-1]['args'][1]
+                        if m[0] == 'agg':
+                            mid = q.agg_field(m, 'id')
+                            good = mid == keyed
+                        else:
+                            # an opaque member (the applied update): the key identity must be read from that same member
+                            good = keyed == ('fieldv', m, 'id', None) or keyed is not None and q.derives_from(p, keyed, lambda c: c['res'] == 'member::Member::id' and
+                                                                        c['args'][0][0] == 'ref' and
+                                                                        (c['derefs'][0] == m or c['args'][0] == ('ref', ('local', 0, 3), False)))
+                        why = 'the key is the address of a different identity than the one the update is about'
+                rep.check(good, 'C15-R1', fn, 'the backlog key is the address of the member the queued bytes describe',
+                          site=e['span'], construct='key-matches-member', facts={'why': why} if not good else None)
+    rep.floor('C15-R1', nk, 3, 'enqueue sites with key/member agreement')
 
 
 class _Quiet:
